@@ -161,8 +161,8 @@ CHECKS["C01"] = {
         {"name": "TestHistories", "quick": 600, "thorough": 6000, "shards": 16, "timeout_q": 400},
         {"name": "TestHistoriesUni", "quick": 400, "thorough": 4000, "shards": 16, "timeout_q": 400},
         {"name": "TestKnownFindings", "quick": 1, "thorough": 1, "shards": 1},
-        {"name": "TestCrashHistories", "quick": 40, "thorough": 400, "shards": 16, "timeout_q": 400},
-        {"name": "TestCrashHistoriesUni", "quick": 60, "thorough": 500, "shards": 16, "timeout_q": 400},
+        {"name": "TestCrashHistories", "quick": 80, "thorough": 400, "shards": 16, "timeout_q": 400},
+        {"name": "TestCrashHistoriesUni", "quick": 220, "thorough": 500, "shards": 16, "timeout_q": 400},
     ],
 }
 
@@ -173,7 +173,7 @@ CHECKS["C02"] = {
     "level_text": "For every generated scenario the number N of requests the fault-free Commit sends is measured and the scenario is re-executed for every crash point (2N executions in the thorough tier, an evenly spaced subset of at most 12 points in the quick tier) on mocktikv (2PC, 1 or 3 stores) and on unistore (async commit, 1PC). The client process is modelled by its connection: from the crash instant on all its requests fail and its background goroutines can no longer reach the store. Crash points between two instructions of the client that do not involve a request are indistinguishable from the neighbouring request boundaries for the store and are therefore covered; crashes of the stores themselves are out of scope.",
     "level_note": "Trusted: mocktikv (checked by C12) and unistore as stores, lock expiry simulated by advancing the virtual TSO clock (mocktikv) or skewing the clients' clock (unistore).",
     "tests": [
-        {"name": "TestCrashPoints", "quick": 120, "thorough": 500, "shards": 16, "timeout_q": 400, "timeout_t": 3000},
+        {"name": "TestCrashPoints", "quick": 260, "thorough": 500, "shards": 16, "timeout_q": 400, "timeout_t": 3000},
         {"name": "TestCrashPointsUni", "quick": 150, "thorough": 300, "shards": 16, "timeout_q": 400, "timeout_t": 3000},
     ],
 }
